@@ -399,7 +399,11 @@ var c12ConcBodies = []struct {
 	{"A-forged-signature-asks-alice", aqP{Sign: "env-sha256", Forge: "sv-flip"}},
 	{"A-foreign-destination-asks-alice", aqP{Dest: "foreign"}},
 	{"A-asks-unknown-subject", aqP{Subject: "unknown", Attrs: "email"}},
+	// the login name alice names ANOTHER person in the tenant served as other.example:8443 (multi-tenant storage)
+	{"B-asks-alice-of-tenant-b", aqP{Issuer: "b", Host: "other.example:8443", Attrs: "email+username"}},
 }
+
+var c12TenantBAlice = &world.User{ID: "u-alice-b", Username: "alice", Email: "alice@tenant-b.example", FullName: "Alice Other", Custom: []world.Custom{{Name: "role", Format: "urn:custom:fmt", Values: []string{"tenant-b-role"}}}}
 
 func c12ConcScenarios() []concScenario {
 	var out []concScenario
@@ -415,6 +419,12 @@ func c12ConcScenarios() []concScenario {
 					w, r0, t0 := aqBuild(ps[0])
 					_, r1, t1 := aqBuild(ps[1])
 					truths = [2]*aqTruth{t0, t1}
+					w.Store.Tenants = map[string]*world.Tenant{t0.Cfg.Issuer("other.example:8443"): {Logins: map[string]*world.User{"alice": c12TenantBAlice}}}
+					for k, t := range truths {
+						if t.Host == "other.example:8443" && t.SubjectName == "alice" {
+							truths[k].User = c12TenantBAlice
+						}
+					}
 					return w, []func() *world.Reply{func() *world.Reply { return w.Do(r0) }, func() *world.Reply { return w.Do(r1) }}
 				},
 				Judge: func(w *world.World, reps []*world.Reply, _ *sched.Exec) []concFinding {
